@@ -144,7 +144,8 @@ func applyFilters(provider *types.PeerRecord, filterAddrs, filterProtocols []str
 	}
 
 	// return untouched if there's no filter or filterAddrsQuery contains "unknown" and provider has no addrs
-	if len(filterAddrs) == 0 || (len(provider.Addrs) == 0 && slices.Contains(filterAddrs, "unknown")) {
+	// (filtering is case-insensitive, see IPIP-484)
+	if len(filterAddrs) == 0 || (len(provider.Addrs) == 0 && slices.ContainsFunc(filterAddrs, isUnknown)) {
 		return provider
 	}
 
@@ -184,8 +185,10 @@ func applyAddrFilter(addrs []types.Multiaddr, filterAddrsQuery []string) []types
 	var filteredAddrs []types.Multiaddr
 	var positiveFilters, negativeFilters []multiaddr.Protocol
 
-	// Separate positive and negative filters
+	// Separate positive and negative filters. Protocol names in the multiaddr
+	// registry are lower case and filtering is case-insensitive.
 	for _, filter := range filterAddrsQuery {
+		filter = strings.ToLower(filter)
 		if strings.HasPrefix(filter, "!") {
 			negativeFilters = append(negativeFilters, multiaddr.ProtocolWithName(filter[1:]))
 		} else {
@@ -229,6 +232,11 @@ func containsProtocol(protos []multiaddr.Protocol, proto multiaddr.Protocol) boo
 	return false
 }
 
+// isUnknown reports whether a filter term is the special `unknown` name.
+func isUnknown(term string) bool {
+	return strings.EqualFold(term, "unknown")
+}
+
 // protocolsAllowed returns true if the peerProtocols are allowed by the filter protocols.
 func protocolsAllowed(peerProtocols []string, filterProtocols []string) bool {
 	if len(filterProtocols) == 0 {
@@ -237,7 +245,7 @@ func protocolsAllowed(peerProtocols []string, filterProtocols []string) bool {
 	}
 
 	for _, filterProtocol := range filterProtocols {
-		if filterProtocol == "unknown" && len(peerProtocols) == 0 {
+		if isUnknown(filterProtocol) && len(peerProtocols) == 0 {
 			return true
 		}
 
